@@ -183,6 +183,55 @@ def run_one(scratch, h, timeout):
     return r
 
 
+PLAYBACK_TIMEOUT = 1500
+
+
+def playback(scratch, h):
+    """Concrete playback of a failed harness: ask Kani for the concrete values of its counterexample, then run the harness
+    natively (cargo kani playback: the real code compiled by rustc, kani::any() fed from the recorded values; stubs are NOT
+    applied, so stubbed callees run for real).  Returns {'outcome': 'reproduces'|'passes'|'none'|'error', ...}."""
+    env = dict(os.environ, CARGO_NET_OFFLINE='true')
+    res = {'outcome': 'none'}
+    try:
+        p = subprocess.run(['cargo', 'kani', '-Z', 'stubbing', '-Z', 'concrete-playback', '--concrete-playback=print', '--harness', h],
+                           cwd=scratch, capture_output=True, text=True, env=env, timeout=HARNESSES[h]['timeout'] + 300)
+        out = p.stdout + p.stderr
+        m = re.search(r'#\[test\]\s*\nfn (kani_concrete_playback_\w+)\(\) \{.*?\n\}', out, re.S)
+        if not m:
+            res['detail'] = 'Kani printed no concrete playback test'
+            return res
+        test_src, test_name = m.group(0), m.group(1)
+        res['test'] = test_src
+        res['values'] = [ln.strip()[2:].strip() for ln in test_src.splitlines() if ln.strip().startswith('// ')]
+        # put the generated test next to the harness: local copy of the harness file + the test appended
+        hf = next(f for src, f in ATTACH if re.search(r'\bfn %s\b' % re.escape(h), open(os.path.join(KANI_DIR, f)).read()))
+        src = next(s_ for s_, f in ATTACH if f == hf)
+        local = os.path.join(scratch, os.path.dirname(src), 'verif_kani_local_' + hf)
+        shutil.copy(os.path.join(KANI_DIR, hf), local)
+        with open(local, 'a') as f:
+            f.write('\n#[cfg(test)]\nmod verif_playback {\n    use super::*;\n' + test_src + '\n}\n')
+        sp = os.path.join(scratch, src)
+        t = open(sp).read().replace('#[path = "%s"]' % os.path.join(KANI_DIR, hf), '#[path = "%s"]' % os.path.basename(local))
+        open(sp, 'w').write(t)
+        p = subprocess.run(['cargo', 'kani', 'playback', '-Z', 'concrete-playback', '--', test_name],
+                           cwd=scratch, capture_output=True, text=True, env=env, timeout=PLAYBACK_TIMEOUT)
+        out = p.stdout + p.stderr
+        if re.search(r'test result: FAILED', out):
+            res['outcome'] = 'reproduces'
+            pm = re.search(r'panicked at [^\n]*\n[^\n]*', out)
+            res['detail'] = pm.group(0) if pm else ''
+        elif re.search(r'test result: ok\. 1 passed', out):
+            res['outcome'] = 'passes'
+            res['detail'] = 'the recorded values do not fail natively (the harness stubs a callee that runs for real in playback, or the failure is a Kani-only check)'
+        else:
+            res['outcome'] = 'error'
+            res['detail'] = out[-800:]
+    except Exception as ex:                                  # playback is best effort; the violation stands without it
+        res['outcome'] = 'error'
+        res['detail'] = repr(ex)[:400]
+    return res
+
+
 def run(harnesses, jobs=6):
     """Returns {harness: result}. Cached per harness on the tree hash."""
     os.makedirs(CACHE, exist_ok=True)
@@ -212,6 +261,9 @@ def run(harnesses, jobs=6):
                     rr['cached'] = False
                     results[futs[f]] = rr
             for h in todo:
+                if results[h]['status'] == 'fail' and not os.environ.get('VERIF_NO_PLAYBACK'):
+                    results[h]['playback'] = playback(scratch, h)
+            for h in todo:
                 if results[h]['status'] in ('ok', 'fail'):
                     json.dump(results[h], open(os.path.join(CACHE, '%s-%s.json' % (h, key)), 'w'))
         finally:
@@ -227,5 +279,7 @@ if __name__ == '__main__':
         print('%-26s %-8s checks=%-5s solver=%6.1fs wall=%6.1fs %s' % (h, r['status'], r.get('checks'), r.get('time_s', 0), r.get('wall_s', 0), 'cached' if r.get('cached') else ''))
         for d, l in r.get('failed_checks', []):
             print('      FAILED: %s @ %s' % (d, l))
+        if r.get('playback'):
+            print('      PLAYBACK: %s %s %s' % (r['playback']['outcome'], r['playback'].get('values'), r['playback'].get('detail', '')[:300]))
         if r['status'] == 'tool':
             print(r.get('tail', '')[-600:])
